@@ -530,7 +530,7 @@ def gen_file_cases(ctx):
     for rh in range_specs(70)[::7] + ["bytes=10-20", "bytes=-70", "bytes=-71", "bytes=69-", "bytes=70-", "bytes=0-69", "bytes=0-70"]:
         cases.append(mk(70, 0, rng.choice([7, 262144]), "GET", rh, {}))
     # (b) If-Range x every range spec on small sizes
-    for size in (0, 1, 4):
+    for size in (4, 1, 0):
         for rh in range_specs(size) + MALFORMED[:12] + [None]:
             for ir in KINDS_IR[1:]:
                 if ctx.quick and rng.random() < 0.6:
@@ -888,20 +888,22 @@ def oracle_static(ctx, tree, case, status, hdrs, body, rec):
     if follow and not inside:
         # with follow_symlinks the *request path* must still stay lexically inside the route
         import urllib.parse
-        segs = urllib.parse.unquote(case["target"].split("?")[0], errors="surrogateescape").split("/")
-        depth = 0; escaped = False
-        pfxn = 0 if case["prefix"] == "/" else 1
+        t = case["target"].replace("{B}", tree.B).replace("{B%2F}", tree.B.replace("/", "%2F")).split("?")[0].split("#")[0]
+        segs = urllib.parse.unquote(t, errors="surrogateescape").split("/")
+        segs = [x for x in segs if x not in ("", ".")]
+        if case["prefix"] != "/":
+            segs = segs[1:]
+        rootsegs = [x for x in tree.root.split("/") if x]
+        stack = list(rootsegs)
         for sgm in segs:
-            if sgm in ("", "."):
-                continue
             if sgm == "..":
-                depth -= 1
+                if stack:
+                    stack.pop()
             else:
-                depth += 1
-            if depth < pfxn:
-                escaped = True
+                stack.append(sgm)
+        escaped = stack[:len(rootsegs)] != rootsegs     # the lexically normalised path is not under the root
         if escaped:
-            bad("confinement/dot-segments-escape-with-follow", "request path leaves the route by dot segments and a file outside the root was served")
+            bad("confinement/dot-segments-escape-with-follow", "the request path, normalised lexically, lies outside the root and a file outside the root was served")
 
 
 def gen_targets(ctx, tree):
@@ -938,9 +940,9 @@ def gen_targets(ctx, tree):
         for a in absf:
             targets.append(pfx + "/" + a)
             targets.append(pfx + "/sub/" + a)
-    targets += ["/static", "/", "/static/", "//", "/static//", "*", "/static?x=1", "/static/a.txt?x=../..", "/static/a.txt#f"]
+    targets += ["/../root/abs_out", "/static/../root/abs_out", "/../root/a.txt", "/sub/../../root/dir_out/secret.txt", "/static", "/", "/static/", "//", "/static//", "*", "/static?x=1", "/static/a.txt?x=../..", "/static/a.txt#f"]
     # grammar
-    for _ in range(1200 if ctx.quick else 30000):
+    for _ in range(1200 if ctx.quick else 20000):
         pfx = rng.choice(prefixes)
         n = rng.randint(0, 6)
         segs = []
